@@ -49,7 +49,7 @@ func (c16) Describe() CheckInfo {
 		},
 		RealCode:       []string{"gopatch main()/runMain/mainCmd.Run, findFiles/findGoFiles, loader, internal/*, all dependencies"},
 		Stubs:          []string{"package os (simulated filesystem with byte-granular write faults and kill), path/filepath walk, io/ioutil"},
-		RequiredProbes: []string{"write-fault-after-truncate", "kill-between-open-and-first-byte", "kill-mid-write", "write-fault-mid-write", "open-fail-target", "open-fail-patch", "read-fail", "walk-fail", "unparseable-target", "misfit-target", "rewrite-error-target", "missing-path", "multi-file-fault-on-non-first", "fault-pair", "sticky-write-fault", "restart-second-run", "restart-with-leftover-temporary", "target-grows-between-walk-and-read", "path-with-shell-metacharacters", "patch-larger-than-a-megabyte"},
+		RequiredProbes: []string{"write-fault-after-truncate", "kill-between-open-and-first-byte", "kill-mid-write", "write-fault-mid-write", "open-fail-target", "open-fail-patch", "read-fail", "walk-fail", "unparseable-target", "misfit-target", "rewrite-error-target", "missing-path", "multi-file-fault-on-non-first", "fault-pair", "sticky-write-fault", "restart-second-run", "restart-with-leftover-temporary", "target-grows-between-walk-and-read", "path-with-shell-metacharacters", "patch-larger-than-a-megabyte", "input-failure-without-any-patch"},
 	}
 }
 
@@ -186,6 +186,17 @@ func (c16) Gen(env *Env, seed uint64, tier string, i int) *Case {
 // c16Inputs turns the world into one with a per-file or per-path input
 // failure at a random position.
 func c16Inputs(c *Case, r *world.PRNG) {
+	defer func() {
+		switch c.Extra["input_failure"] {
+		case "unparseable", "many-unparseable", "missing-path", "unreadable-target", "dir-unreadable":
+			if r.Chance(1, 6) {
+				// no patch at all (the list given with -P names nothing): the
+				// requested paths are looked at, and reported, all the same
+				c.Extra["no_patches"] = "1"
+				c.Extra["list_style"] = r.Pick([]string{"", "blank-lines"})
+			}
+		}
+	}()
 	kind := r.Pick([]string{"huge-patch", "literal-metachar-path", "many-unparseable", "misfit", "missing-path", "unreadable-patch", "unreadable-target", "missing-list-member", "unparseable", "unparseable-patch", "dir-unreadable", "rewrite-error", "rewrite-error"})
 	c.Extra["input_failure"] = kind
 	switch kind {
@@ -902,6 +913,9 @@ func c16EvalInputs(env *Env, c *Case) []Violation {
 		env.Probe("missing-path")
 	}
 	env.Seen("inputs|" + kind + "|" + c.Flags.String() + "|" + fmt.Sprint(len(c.Files)))
+	if c.Extra["no_patches"] == "1" {
+		env.Probe("input-failure-without-any-patch")
+	}
 	stderr := string(r.Stderr)
 	if kind == "huge-patch" {
 		env.Probe("patch-larger-than-a-megabyte")
